@@ -2,6 +2,7 @@
 """mutest.py <patch> [--tier quick] [--seed N] [--props C01,C02|all]
 Apply a patch to /repo, run the checks, undo the patch. Prints which checks raise a VIOLATION."""
 import sys, subprocess, os, re, json, time
+REPO=os.environ.get("VERIF_REPO","/repo"); VERIF=os.path.dirname(os.path.dirname(os.path.abspath(__file__)))
 patch = sys.argv[1]
 tier = sys.argv[sys.argv.index('--tier')+1] if '--tier' in sys.argv else 'quick'
 seed = sys.argv[sys.argv.index('--seed')+1] if '--seed' in sys.argv else '1'
@@ -14,14 +15,14 @@ for l in open(patch):
     if m: target = m.group(1)
 body = ''.join(l for l in open(patch) if not l.startswith('# '))
 tmp = '/tmp/mutest.patch'; open(tmp, 'w').write(body)
-assert subprocess.run(['git', '-C', '/repo', 'status', '--porcelain', '--', 'x', 'custom', 'app'], capture_output=True, text=True).stdout.strip() == '', 'repo dirty'
-subprocess.check_call(['git', '-C', '/repo', 'apply', tmp])
+assert subprocess.run(['git', '-C', REPO, 'status', '--porcelain', '--', 'x', 'custom', 'app'], capture_output=True, text=True).stdout.strip() == '', 'repo dirty'
+subprocess.check_call(['git', '-C', REPO, 'apply', tmp])
 t0 = time.time()
 caught = {}
 try:
     order = ([target] if target in props else []) + [p for p in props if p != target]
     for p in order:
-        r = subprocess.run(['/verif/bin/check', p, '--tier', tier], capture_output=True, text=True, env=dict(os.environ, VERIF_SEED=seed), cwd='/verif')
+        r = subprocess.run([VERIF+'/bin/check', p, '--tier', tier], capture_output=True, text=True, env=dict(os.environ, VERIF_SEED=seed), cwd=VERIF)
         v = [l for l in r.stdout.splitlines() if l.startswith('VIOLATION')]
         if r.returncode == 1 and v:
             msg = [l.strip() for l in r.stdout.splitlines() if l.startswith('  ')]
@@ -29,10 +30,12 @@ try:
         elif r.returncode not in (0, 1):
             caught[p] = 'EXIT %d %s' % (r.returncode, (r.stderr or r.stdout)[-200:].replace('\n', ' '))
 finally:
-    subprocess.check_call(['git', '-C', '/repo', 'checkout', '--', 'x', 'custom', 'app'])
+    subprocess.check_call(['git', '-C', REPO, 'checkout', '--', 'x', 'custom', 'app'])
 name = os.path.basename(patch)
-print('%s target=%s %s in %.0fs' % (name, target, 'CAUGHT by ' + ','.join(sorted(caught)) if caught else 'MISSED', time.time() - t0))
+real = sorted(p for p, m in caught.items() if not m.startswith('EXIT '))
+status = ('CAUGHT by ' + ','.join(real)) if real else ('ERROR (no verdict)' if caught else 'MISSED')
+print('%s target=%s %s in %.0fs' % (name, target, status, time.time() - t0))
 for p, m in sorted(caught.items()):
     print('   ', p, m)
 # restore evidence files of the unchanged tree (the runs above rewrote them)
-subprocess.run(['git', '-C', '/verif', 'checkout', '--', 'evidence'], capture_output=True)
+subprocess.run(['git', '-C', VERIF, 'checkout', '--', 'evidence'], capture_output=True)
